@@ -10,6 +10,7 @@ typedef Problem<D> Prob;
 
 // thresholds (DESIGN s7): >= 1e3 x worst observed on the thorough lattice, recorded in the evidence
 static double thr_coef(int S) { return S == 2 ? 3e-9 : S == 3 ? 1e-8 : 1e-6; }  // worst observed 3.0e-12 / 3.0e-12 / 1.1e-10
+static double thr_coef_uniform(int S) { return S == 2 ? 1e-12 : S == 3 ? 2e-11 : 2e-10; }  // equal durations: worst observed 5.8e-16 / 1.2e-14 / 1.0e-13 (thorough lattice incl. N = 64, scales 2^-6..2^10)
 static double thr_cont(int S) { return S == 2 ? 1e-9 : S == 3 ? 3e-7 : 1e-5; }  // worst observed 3.9e-16 / 1.9e-10 / 3.1e-9
 
 template <int S> struct Runner {
@@ -28,6 +29,7 @@ template <int S> struct Runner {
     Sp sp = build<S, D>(p);
     const auto &C = sp.getTrajectory().getCoefficients();
     for (int v = 0; v < 3; ++v) { Sp h = build_with_history<S, D>(p, v); ++c.st.comparisons; if (!mat_bits_equal(h.getTrajectory().getCoefficients(), C) || h.getTrajectory().getBreakpoints() != sp.getTrajectory().getBreakpoints()) { fail("coeffs-after-history", p, "a spline updated from a larger, fully queried problem differs from a fresh one"); return; } }
+    bool uniform = true; for (int i = 1; i < N; ++i) uniform = uniform && std::fabs(p.T[i] - p.T[0]) <= 1e-6 * p.T[0];   // equal (or nearly equal) durations: the systems are perfectly conditioned
     for (int d = 0; d < D; ++d) {
       int col = col_of_dim[d];
       // The solvers are backward stable: their forward error is relative to the magnitude of the whole solution for
@@ -52,6 +54,7 @@ template <int S> struct Runner {
           ++c.st.comparisons;
           c.st.obs(std::string("coef_vs_R1/") + order_name(S), res);
           if (scale > 0) c.st.obs(std::string("info:coef_vs_R1_piece_scaled/") + order_name(S), (double)(e / scale));
+          if (uniform) { c.st.obs(std::string("coef_vs_R1(uniform durations)/") + order_name(S), res); if (res > thr_coef_uniform(S)) { fail("coef-vs-R1(uniform durations)", p, fmt("segment %d coeff %d dim %d: lib %.17Lg ref %.17Lg scaled err %.3g (tight threshold for equal durations)", i, k, d, libc[k], refc[k], res)); break; } }
           if (res > thr_coef(S)) { fail("coef-vs-R1", p, fmt("segment %d coeff %d dim %d: lib %.17Lg ref %.17Lg scaled err %.3g", i, k, d, libc[k], refc[k], res)); break; }
         }
       }
